@@ -108,10 +108,37 @@ def signed_powers() -> Iterator[Any]:
             yield ("Mul", "c", pw, ("Pow", "-a-2", "n"))
 
 
+EDGE_TERMS = ["a", ("Pow", ("Add", "a", "b"), "2"), ("Pow", "-2", "a"), ("sin", "c"), ("Pow", "c",
+    ("Mul", "-1", "a")), ("Pow", "c", "3/2"), ("Mul", ("Add", "a", "b"), ("Pow", "c", "-1")), ("Mul",
+    "c", ("Add", "a", "n")), ("Pow", ("Mul", "w", "v"), "c"), ("exp", "a"), ("Mul", "2", "a"), ("Mul",
+    "-1", "b"), ("Pow", ("Add", "a", "c"), "b"), ("Abs", "v")]
+
+
+def bracket_edges() -> Iterator[Any]:
+    """sums of two terms whose renderings begin and / or end with a bracket, in every position where
+    the sum itself needs brackets (numerator, denominator, factor, base, argument): a printer that
+    decides about brackets by looking at the *text* of an operand must keep them"""
+    for t1, t2 in itertools.combinations(EDGE_TERMS, 2):
+        s_ = ("Add", t1, t2)
+        yield s_
+        yield ("Mul", s_, ("Pow", "w", "-1"))
+        yield ("Mul", s_, "w")
+        yield ("Mul", "w", ("Pow", s_, "-1"))
+        yield ("Pow", s_, "2")
+        yield ("Pow", s_, "b")
+        yield ("sin", s_)
+        yield ("Mul", s_, ("Pow", ("Add", "w", "3"), "-1"))
+        p_ = ("Mul", t1, t2)
+        yield ("Mul", p_, ("Pow", "w", "-1"))
+        yield ("Pow", p_, "b")
+        yield ("Add", p_, "w")
+
+
 def space(thorough: bool) -> Iterator[Any]:
     yield from LEAVES
     yield from siblings()
     yield from signed_powers()
+    yield from bracket_edges()
     yield from complex_family()
     t1 = list(explore.level1(LEAVES, COMM, UNARY, EXPS, MEDIUM))
     yield from t1
